@@ -148,7 +148,7 @@ func (t *ControllableTask) Launch() error {
 				Error("failed to run task")
 
 			t.sendStatus(t.knownEnvironmentId, mesos.TASK_FAILED, err.Error())
-			_ = t.doTermIntKill(-taskCmd.Process.Pid)
+			// taskCmd.Process is nil when Start fails: there is no process to terminate
 			return
 		}
 		log.WithField("id", t.ti.TaskID.Value).
